@@ -11,8 +11,8 @@
 
 namespace {
 
-enum { K_SLEEP, K_RECV_PAIR, K_RECV_PULL, K_RECV_SUB, K_RECV_REP, K_RECV_BUS, K_SEND_PUSH, K_SEND_PAIR, K_RECV_REQCTX, K_DIAL, K_DEVICE, K_RECV_SURVEYOR, K_NKINDS };
-static const char *kKindName[] = {"sleep", "recv_pair", "recv_pull", "recv_sub", "recv_rep", "recv_bus", "send_push", "send_pair", "recv_reqctx", "dial", "device", "recv_surveyor"};
+enum { K_SLEEP, K_RECV_PAIR, K_RECV_PULL, K_RECV_SUB, K_RECV_REP, K_RECV_BUS, K_SEND_PUSH, K_SEND_PAIR, K_RECV_REQCTX, K_DIAL, K_DEVICE, K_RECV_SURVEYOR, K_STREAM_RECV, K_STREAM_SEND, K_STREAM_ACCEPT, K_NKINDS };
+static const char *kKindName[] = {"sleep", "recv_pair", "recv_pull", "recv_sub", "recv_rep", "recv_bus", "send_push", "send_pair", "recv_reqctx", "dial", "device", "recv_surveyor", "stream_recv", "stream_send", "stream_accept"};
 
 struct Mon {
 	nng_aio   *aio = nullptr;
@@ -35,6 +35,15 @@ struct Mon {
 	bool       have_ctx = false;
 	nng_dialer dialer;
 	nng_socket dev2;
+	// byte streams (nng_stream over ipc / tcp) with a raw peer at the other end
+	nng_stream_listener *sl = nullptr;
+	nng_stream          *st = nullptr;
+	rp                   raw;
+	bool                 have_raw = false;
+	std::vector<nng_stream *> accepted;
+	uint8_t              rbuf[16];
+	uint8_t             *bigbuf = nullptr;
+	int                  stream_port = 0;
 	int        lfd = -1;
 	std::string path;
 	const char *fail_sig = nullptr;
@@ -88,6 +97,15 @@ mon_cb(void *arg)
 	// second operation on the same aio after an idle-time cancel/abort: the stale cancel must have no effect on it
 	if (M->phase2 && !M->harness_cancel && (rv == NNG_ECANCELED || rv == NNG_EINTERNAL))
 		mon_fail(M, "C02:stale-cancel-hits-next-operation", "%s: a cancel/abort issued while the aio was idle failed the next operation with %d", kKindName[M->kind], rv);
+	if (M->kind == K_STREAM_ACCEPT && rv == 0) {
+		nng_stream *ns = (nng_stream *) nng_aio_get_output(M->aio, 0);
+		if (ns == nullptr)
+			mon_fail(M, "C02:success-without-output", "stream accept completed with success but no stream");
+		else
+			M->accepted.push_back(ns);
+	}
+	if ((M->kind == K_STREAM_RECV || M->kind == K_STREAM_SEND) && rv == 0 && nng_aio_count(M->aio) == 0)
+		mon_fail(M, "C02:success-without-bytes", "%s completed with success and a count of 0", kKindName[M->kind]);
 	bool is_recv = M->kind == K_RECV_PAIR || M->kind == K_RECV_PULL || M->kind == K_RECV_SUB || M->kind == K_RECV_REP || M->kind == K_RECV_BUS || M->kind == K_RECV_REQCTX ||
 	    M->kind == K_RECV_SURVEYOR;
 	bool is_send = M->kind == K_SEND_PUSH || M->kind == K_SEND_PAIR;
@@ -140,6 +158,19 @@ submit(Mon *M)
 	case K_SEND_PAIR: nng_aio_set_msg(M->aio, h_msg(0x02000000u | (uint32_t) M->submissions, 4)); nng_socket_send(M->s, M->aio); break;
 	case K_DIAL: nng_dialer_start_aio(M->dialer, NNG_FLAG_NONBLOCK, M->aio); break;
 	case K_DEVICE: nng_device_aio(M->aio, M->s, M->dev2); break;
+	case K_STREAM_RECV: {
+		nng_iov iov = {M->rbuf, sizeof M->rbuf};
+		nng_aio_set_iov(M->aio, 1, &iov);
+		nng_stream_recv(M->st, M->aio);
+		break;
+	}
+	case K_STREAM_SEND: {
+		nng_iov iov = {M->bigbuf, (size_t) 8 << 20};
+		nng_aio_set_iov(M->aio, 1, &iov);
+		nng_stream_send(M->st, M->aio);
+		break;
+	}
+	case K_STREAM_ACCEPT: nng_stream_listener_accept(M->sl, M->aio); break;
 	}
 }
 
@@ -192,6 +223,29 @@ actor_main(void *arg)
 				nng_msg_free(m);
 			break;
 		}
+		case K_STREAM_RECV:
+			if (M->have_raw)
+				rp_write(&M->raw, "12345678", 8);
+			break;
+		case K_STREAM_SEND: // the peer starts reading
+			for (int k = 0; k < 60 && M->have_raw; k++) {
+				uint8_t tmp[65536];
+				rp_pump(&M->raw);
+				while (rp_consume(&M->raw, tmp, sizeof tmp) > 0) {
+				}
+				vs_sleep(1);
+			}
+			break;
+		case K_STREAM_ACCEPT: { // somebody connects
+			rp *r = new rp;
+			int ok = M->stream_port ? rp_connect_tcp(r, M->stream_port) : rp_connect_ipc(r, M->path.c_str());
+			if (ok == 0) {
+				vs_settle();
+				rp_close(r);
+			}
+			delete r;
+			break;
+		}
 		case K_SEND_PUSH:
 		case K_SEND_PAIR: { // a receiver shows up
 			nng_msg *m;
@@ -219,6 +273,9 @@ actor_main(void *arg)
 		switch (M->kind) {
 		case K_RECV_REQCTX: nng_ctx_close(M->ctx); M->have_ctx = false; break;
 		case K_DIAL: nng_dialer_close(M->dialer); break;
+		case K_STREAM_RECV:
+		case K_STREAM_SEND: nng_stream_close(M->st); break;
+		case K_STREAM_ACCEPT: nng_stream_listener_close(M->sl); break;
 		case K_SLEEP: break;
 		case K_DEVICE: break;
 		default: nng_socket_close(M->s); break;
@@ -297,6 +354,46 @@ exec_c02(const vcase *vc)
 		H_OK(nng_pair1_open_raw(&M.s));
 		H_OK(nng_pair1_open_raw(&M.dev2));
 		break;
+	case K_STREAM_RECV:
+	case K_STREAM_SEND:
+	case K_STREAM_ACCEPT: {
+		char pb[96], ub[128];
+		bool tcp = vop_arg(o, 4, 0) != 0;
+		snprintf(pb, sizeof pb, "/tmp/verif-c02s-%d", (int) getpid());
+		unlink(pb);
+		M.path = pb;
+		snprintf(ub, sizeof ub, "ipc://%s", pb);
+		H_OK(nng_stream_listener_alloc(&M.sl, tcp ? "tcp://127.0.0.1:0" : ub));
+		H_OK(nng_stream_listener_listen(M.sl));
+		if (tcp)
+			H_OK(nng_stream_listener_get_int(M.sl, NNG_OPT_BOUND_PORT, &M.stream_port));
+		vr_tag(tcp ? "stream_tcp" : "stream_ipc");
+		if (M.kind != K_STREAM_ACCEPT) {
+			nng_aio *aa;
+			H_OK(nng_aio_alloc(&aa, NULL, NULL));
+			nng_stream_listener_accept(M.sl, aa);
+			vs_settle();
+			int ok = tcp ? rp_connect_tcp(&M.raw, M.stream_port) : rp_connect_ipc(&M.raw, pb);
+			if (ok != 0) {
+				nng_aio_cancel(aa);
+				nng_aio_wait(aa);
+				nng_aio_free(aa);
+				nng_stream_listener_free(M.sl);
+				nng_aio_free(M.aio);
+				unlink(pb);
+				h_end();
+				return 0; // (no port to be had: not the subject)
+			}
+			M.have_raw = true;
+			nng_aio_wait(aa);
+			H_OK(nng_aio_result(aa));
+			M.st = (nng_stream *) nng_aio_get_output(aa, 0);
+			nng_aio_free(aa);
+			if (M.kind == K_STREAM_SEND)
+				M.bigbuf = (uint8_t *) calloc(1, (size_t) 8 << 20);
+		}
+		break;
+	}
 	default: break;
 	}
 	vs_settle();
@@ -452,7 +549,7 @@ exec_c02(const vcase *vc)
 			nng_aio_free(c.aio);
 		nng_socket_close(crowd_sock);
 	}
-	// phase 2: the aio is idle again; a cancel/abort issued now "has no effect", in particular not on the next operation
+	// phase 2 (not for streams whose close actor ran): the aio is idle again; a cancel/abort issued now "has no effect", in particular not on the next operation
 	for (int i = 2; i < vc->nops; i++) {
 		const vop *ag = &vc->ops[i];
 		if (strcmp(ag->name, "again") != 0)
@@ -516,7 +613,16 @@ exec_c02(const vcase *vc)
 		nng_aio_free(M.aio);
 	if (M.have_ctx)
 		nng_ctx_close(M.ctx);
-	if (M.kind == K_DEVICE) {
+	if (M.kind == K_STREAM_RECV || M.kind == K_STREAM_SEND || M.kind == K_STREAM_ACCEPT) {
+		if (M.st != nullptr)
+			nng_stream_free(M.st);
+		for (auto *ns : M.accepted)
+			nng_stream_free(ns);
+		nng_stream_listener_free(M.sl);
+		if (M.have_raw)
+			rp_close(&M.raw);
+		free(M.bigbuf);
+	} else if (M.kind == K_DEVICE) {
 		nng_socket_close(M.s);
 		nng_socket_close(M.dev2);
 	} else if (M.kind != K_SLEEP) {
@@ -565,8 +671,8 @@ main(int argc, char **argv)
 	sp.id   = "C02";
 	sp.gen  = gen_c02;
 	sp.exec = exec_c02;
-	sp.rule = "one operation of 12 kinds (sleep; receive on pair/pull/sub/rep/bus/surveyor/req-context; blocked send on push/pair; dialer start towards "
-	          "nobody or a stalling listener; device) on an aio that is fresh, zero-timeout, timed (1..50 ms) or already stopped, optionally re-submitted "
+	sp.rule = "one operation of 15 kinds (sleep; receive on pair/pull/sub/rep/bus/surveyor/req-context; blocked send on push/pair; dialer start towards "
+	          "nobody or a stalling listener; device; nng_stream receive, blocked 8 MiB send and accept over ipc / tcp against a raw peer) on an aio that is fresh, zero-timeout, timed (1..50 ms) or already stopped, optionally re-submitted "
 	          "1-3 times from its callback, raced by 1-4 actors (completer, cancel, abort, stop, wait, close of the underlying object, free) acting at "
 	          "virtual times chosen from {0,1,T-1,T,T+1} under fifo / random / PCT schedules; optionally a crowd of 20..250 sleeps/receives falling due together on the "
 	          "same expire queue (each must time out exactly once, never early, none forgotten), and optionally a second operation on the same aio after an "
